@@ -507,6 +507,12 @@ def call_method(ex, recv, name, args, kw, st, where):
     if isinstance(recv, (tuple, list)):
         if name == "index" or name == "count":
             raise PyvcUnsupported("tuple.index/count")
+    from .exec import PyRecord
+    if isinstance(recv, PyRecord) and name == "_replace":
+        d = dict(recv.fields)
+        d.update(kw)
+        yield PyRecord(recv.cname, d), st
+        return
     if not isinstance(recv, Sym):
         raise PyvcUnsupported(f"method {name} on {recv!r}")
     t = recv.ty
